@@ -380,6 +380,10 @@ class Model:
             else:
                 m = self.bound(e[2], env, lvl) or 0
                 n = self.bound(e[3], env, lvl)
+                if n is not None and m > n:
+                    # the constructor rejects static m > n; at run time it is an
+                    # ill-formed program outside the property
+                    raise IllFormed('lower bound above upper bound')
             out = []
             q = p
             while n is None or len(out) < n:
